@@ -237,11 +237,13 @@ class Check:
         os.makedirs(os.path.join(VERIF, 'evidence'), exist_ok=True)
 
         import glob
-        for old in glob.glob(os.path.join(VERIF, 'replays', f'{self.pid}-{self.tier}-seed{self.seed}-*.json')):
-            os.unlink(old)
+        replaying = getattr(self, 'replay_mode', False)       # `./check Cnn --replay F`: F stays, evidence is not rewritten
+        if not replaying:
+            for old in glob.glob(os.path.join(VERIF, 'replays', f'{self.pid}-{self.tier}-seed{self.seed}-*.json')):
+                os.unlink(old)
 
         def write_replay(kind, body):
-            path = os.path.join('replays', f'{self.pid}-{self.tier}-seed{self.seed}-{kind}.json')
+            path = os.path.join('replays', f"{self.pid}-{'replayed' if replaying else self.tier}-seed{self.seed}-{kind}.json")
             json.dump(dict(property=self.pid, seed=self.seed, tier=self.tier, kind=kind, **body),
                       open(os.path.join(VERIF, path), 'w'), indent=1, default=str)
             return path
@@ -285,7 +287,8 @@ class Check:
         cov.update(self.extra)
         ev = {'property_id': self.pid, 'tier': self.tier, 'seed': self.seed, 'level': 'proof', 'coverage': cov,
               'assumptions': self.assumptions, 'wall_s': wall, 'violations': len(violations)}
-        json.dump(ev, open(os.path.join(VERIF, 'evidence', f'{self.pid}.json'), 'w'), indent=1, default=str)
+        if not replaying:
+            json.dump(ev, open(os.path.join(VERIF, 'evidence', f'{self.pid}.json'), 'w'), indent=1, default=str)
         shutil.rmtree(self.scratch, ignore_errors=True)
         for v in violations:
             print(v)
